@@ -557,3 +557,193 @@ Section StatsThm.
     Qed.
   End WithInv.
 End StatsThm.
+
+(* ---------- construction ---------- *)
+Fixpoint lgo (cl : list (N * N)) (buf : list slot) (acc : list (option (list slot)))
+  : res (list (option (list slot))) :=
+  match cl with
+  | [] => Ok acc
+  | (c, n) :: r =>
+      if 8 <=? c then Panic (SIndex 49)
+      else lgo r (skipn (nn n) buf) (upd acc (nn c) (Some (firstn (nn n) buf)))
+  end.
+Lemma locals_new_lgo classing buf : locals_new classing buf = lgo classing buf (repeat None 8).
+Proof. reflexivity. Qed.
+
+Definition notpres (s : slot) : Prop := s_pres s = false.
+
+Lemma Forall_firstn' {A} (P : A -> Prop) n : forall l, Forall P l -> Forall P (firstn n l).
+Proof. induction n; intros [|a l] H; cbn; auto. inversion H; subst. constructor; auto. Qed.
+Lemma Forall_skipn' {A} (P : A -> Prop) n : forall l, Forall P l -> Forall P (skipn n l).
+Proof. induction n; intros [|a l] H; cbn; auto. inversion H; subst. auto. Qed.
+
+Lemma lgo_spec : forall cl buf acc,
+  (forall c k, In (c, k) cl -> c < 8) -> length acc = 8%nat ->
+  (forall c l, nth_error acc c = Some (Some l) -> Forall notpres l) -> Forall notpres buf ->
+  exists ls, lgo cl buf acc = Ok ls /\ length ls = 8%nat /\
+    (forall c l, nth_error ls c = Some (Some l) -> Forall notpres l) /\
+    (forall c, (exists l, nth_error acc (nn c) = Some (Some l)) \/ (exists k, In (c, k) cl) ->
+               exists l, nth_error ls (nn c) = Some (Some l)).
+Proof.
+  induction cl as [|(c0, k0) cl IH]; intros buf acc Hc Hl Hacc Hbuf; cbn [lgo].
+  - exists acc. splits; auto. intros c [H|(k & [])]; auto.
+  - assert (C8 : c0 < 8) by (eapply Hc; left; reflexivity).
+    apply N.leb_gt in C8. rewrite C8. apply N.leb_gt in C8.
+    destruct (IH (skipn (nn k0) buf) (upd acc (nn c0) (Some (firstn (nn k0) buf)))) as (ls & E & L & F & G).
+    + intros c k Hin. eapply Hc. right. eauto.
+    + rewrite upd_length. auto.
+    + intros c l Hn. destruct (Nat.eq_dec c (nn c0)) as [->|Nc].
+      * rewrite nth_error_upd_same in Hn by (unfold nn; lia). inversion Hn; subst. apply Forall_firstn'. auto.
+      * rewrite nth_error_upd_other in Hn by auto. eapply Hacc; eauto.
+    + apply Forall_skipn'. auto.
+    + exists ls. splits; auto. intros c H. apply G.
+      destruct (N.eq_dec c c0) as [->|Nc].
+      * left. rewrite nth_error_upd_same by (unfold nn; lia). eauto.
+      * destruct H as [(l & H)|(k & [H|H])].
+        -- left. rewrite nth_error_upd_other by (unfold nn; lia). eauto.
+        -- inversion H; congruence.
+        -- right. eauto.
+Qed.
+
+Lemma nth_error_seq' : forall n s i, (i < n)%nat -> nth_error (seq s n) i = Some (s + i)%nat.
+Proof.
+  induction n; intros s i H; [lia|]. destruct i; cbn; [f_equal; lia|].
+  rewrite IHn by lia. f_equal. lia.
+Qed.
+
+Lemma frames_recover_one g l h : frames (recover_one g l h) = frames l.
+Proof.
+  unfold recover_one. destruct (nth_error (ents l) h); auto. destruct (nth_error (bfs l) h); auto.
+  destruct (e_huge n); [destruct (_ =? _)|destruct (_ =? _)]; reflexivity.
+Qed.
+Lemma frames_recover_fold g : forall L l, frames (fold_left (recover_one g) L l) = frames l.
+Proof. induction L as [|h L IH]; intros l; cbn [fold_left]; auto. rewrite IH. apply frames_recover_one. Qed.
+Lemma frames_lower_new g fr i buf : frames (lower_new g fr i buf) = fr.
+Proof.
+  destruct i; cbn [lower_new]; try reflexivity.
+  unfold lower_recover. rewrite frames_recover_fold. reflexivity.
+Qed.
+
+Section New.
+  Variable g : geom.
+  Variable policy : N -> N -> N -> pol.
+  Hypothesis WF : wf_geom g.
+  Hypothesis LF : lower_facts g.
+  Notation TF := (TF g).
+
+  Definition tree_init (l : lower) (d : N) (i : nat) : tree :=
+    {| t_free := tree_free g l (N.of_nat i); t_res := false; t_class := d |}.
+
+  Lemma trees_new_spec l d : LowerInv g l ->
+    trees_new g l d = Ok (map (tree_init l d) (seq 0 (nn (ntab g (frames l))))).
+  Proof.
+    intros HL. unfold trees_new.
+    assert (G : forall L, (forall i, In i L -> N.of_nat i < ntab g (frames l)) ->
+      fold_right (fun i acc =>
+        match acc with
+        | Ok ts =>
+            match lower_stats_at g l (N.of_nat i * TF) (tord g) with
+            | Ok s => if TF <? free_frames s then Panic STreeFree
+                      else Ok ({| t_free := free_frames s; t_res := false; t_class := d |} :: ts)
+            | Err e => Err e
+            | Panic s => Panic s
+            end
+        | other => other
+        end) (Ok []) L = Ok (map (tree_init l d) L)).
+    { induction L as [|i L IH]; intros H; cbn [fold_right map]; auto.
+      rewrite IH by (intros; apply H; right; auto).
+      assert (Hi : N.of_nat i < ntab g (frames l)) by (apply H; left; auto).
+      destruct (lf_stats_at_tree g LF l _ HL Hi) as (s & E1 & E2). rewrite E1, E2.
+      destruct (lf_tree_free g LF l _ HL Hi) as (_ & Hle). apply N.ltb_ge in Hle. rewrite Hle. reflexivity. }
+    apply G. intros i Hi. apply in_seq in Hi. unfold nn in Hi. lia.
+  Qed.
+
+  Theorem llfree_new_correct fr i classing d lbuf tbuf sbuf :
+    i <> INone ->
+    LowerInv g (lower_new g fr i lbuf) ->
+    Forall notpres sbuf ->
+    (forall c k, In (c, k) classing -> c < 8) ->
+    (exists k, In (d, k) classing) ->
+    exists u, llfree_new g fr i classing d lbuf tbuf sbuf = Ok u /\
+              UpperInv g policy (ustate_new u) /\
+              low u = lower_new g fr i lbuf /\ dflt u = d /\
+              (forall t, tree_at u t <> None -> tree_at u t =
+                 Some {| t_free := tree_free g (low u) t; t_res := false; t_class := d |}) /\
+              present_slots u = [].
+  Proof.
+    intros Hi HL Hbuf Hcl Hd. set (l := lower_new g fr i lbuf) in *.
+    destruct (lgo_spec classing sbuf (repeat None 8) Hcl eq_refl) as (ls & E & L8 & F & G); auto.
+    { intros c l0 Hn. exfalso. assert (In (Some l0) (repeat None 8)) by (eapply nth_error_In; eauto).
+      apply repeat_spec in H. discriminate. }
+    unfold llfree_new. fold l. rewrite locals_new_lgo, E, (trees_new_spec l d HL).
+    set (u := {| low := l; trees := map (tree_init l d) (seq 0 (nn (ntab g (frames l)))); locals := ls; dflt := d |}).
+    assert (RES : (match i with INone => Ok {| low := l; trees := firstn (nn (ntab g fr)) tbuf; locals := ls; dflt := d |}
+                            | _ => Ok u end) = Ok u) by (destruct i; congruence).
+    exists u. split; [destruct i; try congruence; reflexivity|].
+    assert (HP : present_slots u = []).
+    { unfold present_slots. apply filter_nil. intros (c, s) Hin. cbn [snd].
+      apply in_all_slots in Hin; [|exact L8]. destruct Hin as (j & Hj).
+      destruct (slot_at_inv _ _ _ _ Hj) as (l0 & E0 & N0). unfold class_slots in E0. cbn [locals u] in E0.
+      destruct (nth_error ls (nn c)) as [[l1|]|] eqn:En; try discriminate. inversion E0; subst l1.
+      specialize (F _ _ En). rewrite Forall_forall in F. apply F. eapply nth_error_In; eauto. }
+    assert (HD : class_slots u d <> None).
+    { destruct (G d (or_intror Hd)) as (l0 & E0). unfold class_slots. cbn [locals u]. rewrite E0. discriminate. }
+    assert (HT : forall k t, nth_error (trees u) k = Some t -> t = tree_init l d k /\ (k < nn (ntab g (frames l)))%nat).
+    { intros k t Hk. cbn [trees u] in Hk. rewrite nth_error_map in Hk.
+      destruct (nth_error (seq 0 (nn (ntab g (frames l)))) k) as [k'|] eqn:Ek; [|discriminate].
+      assert (Hlt : (k < nn (ntab g (frames l)))%nat).
+      { rewrite <- (seq_length (nn (ntab g (frames l))) 0). apply nth_error_Some. congruence. }
+      rewrite nth_error_seq' in Ek by auto. inversion Ek; subst k'. inversion Hk. auto. }
+    splits; auto.
+    - unfold UpperInv, ustate_new. cbn [us off]. cbv zeta. splits; auto.
+      + cbn [trees u]. rewrite map_length, seq_length. reflexivity.
+      + apply repeat_length.
+      + intros k t Hk. destruct (HT k t Hk) as (-> & Hlt).
+        unfold tree_ok. cbv zeta. unfold slots_of. rewrite HP. cbn [filter length sum_free fold_right tree_init t_res t_free t_class].
+        splits; auto; try (intros c s []).
+        rewrite nth_repeat. cbn [low u]. lia.
+      + intros c s Hin. rewrite HP in Hin. destruct Hin.
+    - intros t Ht. unfold tree_at in *. destruct (nth_error (trees u) (nn t)) as [t0|] eqn:Et; [|congruence].
+      destruct (HT _ _ Et) as (-> & _). unfold tree_init, nn. rewrite N2Nat.id. reflexivity.
+  Qed.
+End New.
+
+(* ---------- non-vacuity ---------- *)
+Example tree_stats_nonvacuous :
+  UpperInv g0 pol0 ex3 /\ present_slots (us ex3) <> [] /\
+  (exists ts, llfree_tree_stats g0 (us ex3) = Ok ts /\ ts_free ts = 4087 /\
+              sumN (map (fun c => cs_free c + cs_alloc c) (ts_classes ts)) = 3 * 2048) /\
+  free_frames (lower_stats g0 (low (us ex3))) =
+    sum_seq (nn (ntab g0 (frames (low (us ex3))))) (fun i => tree_free g0 (low (us ex3)) (N.of_nat i)) /\
+  Forall (fun o => o = 0) (off ex3) /\ llfree_validate g0 (us ex3) = Ok tt.
+Proof.
+  split; [exact ex3_inv|]. split; [vm_compute; discriminate|]. split.
+  - eexists. split; [vm_compute; reflexivity|]. vm_compute. auto.
+  - split; [vm_compute; reflexivity|]. split; [|vm_compute; reflexivity].
+    vm_compute. repeat constructor.
+Qed.
+
+(* a state with an offline tree: the hidden amount enters the sum *)
+Example tree_stats_offline_nonvacuous :
+  UpperInv g0 pol0 ex4 /\ sumN (off ex4) = 1528 /\
+  (exists ts, llfree_tree_stats g0 (us ex4) = Ok ts /\
+              ts_free ts + sumN (off ex4) = free_frames (lower_stats g0 (low (us ex4)))).
+Proof.
+  split; [exact ex4_inv|]. split; [vm_compute; reflexivity|].
+  eexists. split; [vm_compute; reflexivity|]. vm_compute. reflexivity.
+Qed.
+
+Example llfree_new_nonvacuous :
+  LowerInv g0 (lower_new g0 4608 IFreeAll lower0) /\
+  LowerInv g0 (lower_new g0 4608 IAllocAll lower0) /\
+  Forall notpres (repeat slot_none 3) /\
+  (forall c k, In (c, k) [(0, 2); (1, 1)] -> c < 8) /\ (exists k, In (0, k) [(0, 2); (1, 1)]) /\
+  (exists u, llfree_new g0 4608 IFreeAll [(0, 2); (1, 1)] 0 lower0 [] (repeat slot_none 3) = Ok u /\
+             upper_invb g0 pol0 (ustate_new u) = true).
+Proof.
+  split; [apply lower_invb_sound; vm_compute; reflexivity|].
+  split; [apply lower_invb_sound; vm_compute; reflexivity|].
+  split; [repeat constructor|]. split.
+  - intros c k [H|[H|[]]]; inversion H; subst; reflexivity.
+  - split; [exists 2; left; reflexivity|]. eexists. split; [vm_compute; reflexivity|]. vm_compute. reflexivity.
+Qed.
